@@ -40,8 +40,16 @@ def close(got: float, want: Fraction, rel: float) -> bool:
 def replay(chk, cases, variants):
     m = impl.pb()
     U = m.Unit
-    for c in cases:
-        for (ang_name, ang_unit, ang_per_mil, tol), (dist_unit, dist_per_yd) in variants:
+    for ci, c in enumerate(cases):
+        # the constructor re-displays the click sizes in PreferredUnits.adjustment: also under the tangent-based units
+        # (every 3rd / 5th case), and with the caller re-displaying the click object it passed in afterwards
+        pref_adj = U.CmPer100m if ci % 3 == 1 else (U.InchesPer100Yd if ci % 5 == 2 else None)
+        redisplay = ci % 7 == 3
+        for (ang_name, ang_unit, ang_per_mil, tol), (dist_unit, dist_per_yd) in (variants if pref_adj is None and not redisplay else variants[:1]):
+            core.reset_world()
+            if pref_adj is not None:
+                m.PreferredUnits.adjustment = pref_adj
+                chk.stratum("pref_adjustment_tangent_unit")
             # the spec's "unit" is the mil; the same physical sight expressed in another unit
             vclick = ang_unit(float(Fraction(c["vclick"], 10) * ang_per_mil))
             hclick = ang_unit(float(Fraction(c["hclick"], 10) * ang_per_mil))
@@ -61,6 +69,10 @@ def replay(chk, cases, variants):
             sight = o[1]
             if c["tgt"] == 0:
                 continue
+            if redisplay:
+                vclick << U.InchesPer100Yd        # the caller looks at its own click objects in another unit
+                hclick << U.CmPer100m
+                chk.stratum("caller_redisplays_click")
             want_v, want_h = Fraction(*c["v"]), Fraction(*c["h"])
             tgt = dist_unit(float(c["tgt"] * dist_per_yd))
             vc = ang_unit(float(c["vcorr"] * ang_per_mil))
@@ -108,7 +120,8 @@ def run(chk: core.Check, replay_path=None, **_):
     chk.traces += len(cases)
     for x in cases[:: max(1, len(cases) // 4)][:4]:
         chk.sample(x)
-    chk.require_strata(["rejected", "FFP", "SFP", "LWIR"])
+    core.reset_world()
+    chk.require_strata(["rejected", "FFP", "SFP", "LWIR", "pref_adjustment_tangent_unit", "caller_redisplays_click"])
     chk.extra["unit_variants"] = [f"{a[0]}/{d[0]}" for a, d in variants]
     chk.rule.append("every (focal plane, click sizes, calibration distance) x (target distance, magnification, corrections) of the "
                     "bounded Sight model, each in several angular/distance units and through both entry points; "
